@@ -1,9 +1,15 @@
 #!/bin/bash
 cd "$(dirname "$0")/.."
 ./setup.sh >/dev/null 2>&1
-for id in C04 C10 C09 C03 C12 C15 C36 C26 C14 C13 C01 C27; do
+run_one() {
+  id=$1
   t0=$(date +%s)
-  out=$(VERIF_OUT_DIR=$PWD/thorough_out ./check $id --tier thorough 2>&1 | grep -v '^KNOWN-FINDING' | tail -3)
+  out=$(VERIF_OUT_DIR=$PWD/thorough_out/$id ./check $id --tier thorough 2>&1 | grep -v '^KNOWN-FINDING' | tail -3)
   echo "### $id $(( $(date +%s) - t0 ))s :: $(echo "$out" | tail -1 | cut -c1-220)"
   echo "$out" | grep -E "VIOLATION|HARNESS" | head -3
+}
+# two at a time (each check already uses several processes)
+for pair in "C04 C10" "C13 C14" "C26 C36"; do
+  for id in $pair; do run_one $id & done
+  wait
 done
